@@ -220,8 +220,13 @@ def fn_tree(spec, rec):
         keys = list(range(n))[::-1] + [n, n + 1]
         lone = Data(label="lone", k=np.array(keys))
         needs_join = False
+        # every elementary selection except the empty one and the slice selection is tied to its dataset (attributes, pixel
+        # grid, uuid), so a composite containing one cannot be evaluated on an unrelated dataset - also not by a copy of it
+        tied = any(l["t"] not in ("base", "slice") for l in leaves)
         try:
             lone.get_mask(tree)
+            if tied:
+                raise Mismatch("selection-evaluates-on-unrelated-dataset", {"leaves": sorted({gen.leaf_kind(l) for l in leaves})})
             rec.label("join:selection-evaluable-without-the-join")
         except IncompatibleAttribute:
             needs_join = True
